@@ -22,6 +22,7 @@
  */
 #define _GNU_SOURCE
 #include <pthread.h>
+#include <sched.h>
 #include <semaphore.h>
 #include <stdbool.h>
 #include <stdint.h>
@@ -39,6 +40,8 @@ typedef struct {
     unsigned char *handed;
     int is_single, single_taken;
     int arrivals;
+    int taken[MAXT]; /* free-running mode: chunks handed to each member (fair hand-out) */
+    int total_taken;
 } ws_t;
 
 typedef struct team {
@@ -54,8 +57,22 @@ typedef struct team {
     void *data;
     struct team *parent;
     pthread_mutex_t mu;
+    pthread_barrier_t start; /* free-running mode: all members enter the region body together */
+    volatile int spin; /* free-running mode: work-share bookkeeping lock, see ws_lock() */
     pthread_barrier_t bar;
 } team_t;
+
+/* Free-running mode (race pass under the real libtsan): the hand-out of loop chunks and the entry into a work-sharing
+ * construct are NOT synchronisation the program may rely on (OpenMP orders nothing between iterations of a loop).  A
+ * pthread mutex here would be intercepted by libtsan and would create happens-before edges between the iterations of
+ * different threads, hiding races on variables that are wrongly shared between iterations whenever one thread happens to
+ * fetch its chunk after another has finished.  This file is compiled without -fsanitize=thread, so a lock built from
+ * compiler atomics is invisible to the detector.  Barriers, critical sections and thread creation / join keep using
+ * pthread primitives: those ARE synchronisation. */
+static inline void ws_lock(team_t *tm) {
+    while (__atomic_exchange_n(&tm->spin, 1, __ATOMIC_ACQUIRE)) sched_yield();
+}
+static inline void ws_unlock(team_t *tm) { __atomic_store_n(&tm->spin, 0, __ATOMIC_RELEASE); }
 
 typedef struct {
     team_t *tm;
@@ -304,6 +321,7 @@ static void *member_main(void *argp) {
         tm->state[id] = ST_DONE;
         schedule(tm, id, 'E');
     } else {
+        pthread_barrier_wait(&tm->start);
         tm->fn(tm->data);
     }
     tl_team = NULL;
@@ -341,6 +359,7 @@ void GOMP_parallel(void (*fn)(void *), void *data, unsigned num_threads,
     pthread_t th[MAXT];
     member_arg_t args[MAXT];
     pthread_mutex_init(&tm.mu, NULL);
+    tm.spin = 0;
     if (tm.controlled) {
         for (int i = 0; i < tm.T; i++) {
             sem_init(&tm.sem[i], 0, 0);
@@ -348,6 +367,7 @@ void GOMP_parallel(void (*fn)(void *), void *data, unsigned num_threads,
         }
     } else {
         pthread_barrier_init(&tm.bar, NULL, tm.T);
+        pthread_barrier_init(&tm.start, NULL, tm.T);
     }
     pthread_attr_t attr;
     pthread_attr_init(&attr);
@@ -366,6 +386,7 @@ void GOMP_parallel(void (*fn)(void *), void *data, unsigned num_threads,
         tm.state[0] = ST_DONE;
         schedule(&tm, 0, 'E');
     } else {
+        pthread_barrier_wait(&tm.start);
         fn(data);
     }
     for (int i = 1; i < tm.T; i++) pthread_join(th[i], NULL);
@@ -376,6 +397,7 @@ void GOMP_parallel(void (*fn)(void *), void *data, unsigned num_threads,
         for (int i = 0; i < tm.T; i++) sem_destroy(&tm.sem[i]);
     } else {
         pthread_barrier_destroy(&tm.bar);
+        pthread_barrier_destroy(&tm.start);
     }
     pthread_mutex_destroy(&tm.mu);
     for (int k = 0; k < tm.nws; k++) free(tm.ws[k].handed);
@@ -452,10 +474,26 @@ static bool dyn_next(long *istart, long *iend) {
         w = &tm->ws[tm->t_ws[me] - 1];
         r = ws_take(w, istart, iend);
     } else {
-        if (tm->T > 1) pthread_mutex_lock(&tm->mu);
-        w = &tm->ws[tm->t_ws[me] - 1];
-        r = ws_take(w, istart, iend);
-        if (tm->T > 1) pthread_mutex_unlock(&tm->mu);
+        /* fair hand-out: a member that is more than one chunk ahead of an even share politely lets the others in
+         * (bounded: it never waits for a member that may be blocked elsewhere) - otherwise the first thread to start
+         * takes every chunk of a short loop and no two threads ever execute iterations concurrently */
+        for (int polite = 0;; polite++) {
+            if (tm->T > 1) ws_lock(tm);
+            w = &tm->ws[tm->t_ws[me] - 1];
+            if (tm->T > 1 && polite < 2000 && (long)w->taken[me] * tm->T > (long)w->total_taken + tm->T - 1 &&
+                (w->next - w->start) / (w->incr ? w->incr : 1) < w->niter) {
+                ws_unlock(tm);
+                sched_yield();
+                continue;
+            }
+            r = ws_take(w, istart, iend);
+            if (r) {
+                w->taken[me]++;
+                w->total_taken++;
+            }
+            if (tm->T > 1) ws_unlock(tm);
+            break;
+        }
     }
     return r;
 }
@@ -474,9 +512,9 @@ static bool dyn_start(long start, long end, long incr, long chunk, long *istart,
     if (tm->controlled || tm->T == 1) {
         ws_enter(tm, me, 0, start, end, incr, chunk);
     } else {
-        pthread_mutex_lock(&tm->mu);
+        ws_lock(tm);
         ws_enter(tm, me, 0, start, end, incr, chunk);
-        pthread_mutex_unlock(&tm->mu);
+        ws_unlock(tm);
     }
     return dyn_next(istart, iend);
 }
@@ -521,11 +559,11 @@ bool GOMP_single_start(void) {
         r = !w->single_taken;
         w->single_taken = 1;
     } else {
-        pthread_mutex_lock(&tm->mu);
+        ws_lock(tm);
         ws_t *w = ws_enter(tm, me, 1, 0, 0, 0, 0);
         r = !w->single_taken;
         w->single_taken = 1;
-        pthread_mutex_unlock(&tm->mu);
+        ws_unlock(tm);
     }
     return r;
 }
@@ -569,9 +607,18 @@ double omp_get_wtime(void) { return 0.0; }
 /* ------------------------------------------------------------------ tsan hooks
  * Only used when the real libtsan is not loaded (its symbols come first in the
  * global scope when it is LD_PRELOADed). */
+/* A promoted racing access is a scheduling point BEFORE the access (the hook runs before it) and arms a second point at
+ * the member's next instrumented access, i.e. just AFTER it: a lost update or a stale read needs the other member to run
+ * between this member's write and its own later use of the value (which may sit in uninstrumented code, e.g. BLAS). */
+static __thread int tl_after = 0;
 static inline void race_point(void *ra) {
     team_t *tm = tl_team;
     if (g_npcs == 0 || !tm || !tm->controlled || tm->T == 1) return;
+    if (tl_after) {
+        tl_after = 0;
+        g_race_hits++;
+        schedule(tm, tl_id, 'R');
+    }
     uintptr_t pc = (uintptr_t)ra;
     int lo = 0, hi = g_npcs - 1;
     while (lo <= hi) {
@@ -579,6 +626,7 @@ static inline void race_point(void *ra) {
         if (g_pcs[mid] == pc) {
             g_race_hits++;
             schedule(tm, tl_id, 'R');
+            tl_after = 1;
             return;
         }
         if (g_pcs[mid] < pc) lo = mid + 1;
@@ -597,8 +645,16 @@ TSAN_HOOK(__tsan_unaligned_write2) TSAN_HOOK(__tsan_unaligned_write4)
 TSAN_HOOK(__tsan_unaligned_write8) TSAN_HOOK(__tsan_unaligned_write16)
 void __tsan_read_range(void *a, unsigned long n) { (void)a; (void)n; race_point(__builtin_return_address(0)); }
 void __tsan_write_range(void *a, unsigned long n) { (void)a; (void)n; race_point(__builtin_return_address(0)); }
-void __tsan_func_entry(void *pc) { (void)pc; }
-void __tsan_func_exit(void) {}
+static inline void after_point(void) {
+    team_t *tm = tl_team;
+    if (tl_after && tm && tm->controlled && tm->T > 1) {
+        tl_after = 0;
+        g_race_hits++;
+        schedule(tm, tl_id, 'R');
+    }
+}
+void __tsan_func_entry(void *pc) { (void)pc; after_point(); }
+void __tsan_func_exit(void) { after_point(); }
 void __tsan_init(void) {}
 void __tsan_vptr_update(void **a, void *b) { (void)a; (void)b; }
 void __tsan_vptr_read(void **a) { (void)a; }
